@@ -44,6 +44,9 @@ pub enum Style {
     Pretty,
     Compact,
     Wild,
+    /// like Pretty, but continuation lines (and often statements) start in the first column:
+    /// two tokens separated by nothing but a line break
+    Flush,
 }
 
 fn tightish(a: &PTok, b: &PTok) -> bool {
@@ -121,6 +124,18 @@ pub fn gen_layout(p: &Prog, t: &mut Tape, style: Style) -> Vec<Gap> {
                             Gap { nl: 0, blanks: " ".to_string(), fixed, trail: String::new() }
                         }
                     }
+                    Style::Flush => {
+                        if line_start {
+                            let ind = if t.chance(1, 2) { String::new() } else { "  ".repeat(depth) };
+                            Gap { nl: 1, blanks: ind, fixed, trail: String::new() }
+                        } else if t.chance(1, 4) {
+                            Gap { nl: 1, blanks: String::new(), fixed, trail: String::new() }
+                        } else if touch_ok && tightish(a, b) {
+                            Gap { nl: 0, blanks: String::new(), fixed, trail: String::new() }
+                        } else {
+                            Gap { nl: 0, blanks: " ".to_string(), fixed, trail: String::new() }
+                        }
+                    }
                     Style::Wild => match t.below(10) {
                         0 | 1 if touch_ok => Gap { nl: 0, blanks: String::new(), fixed, trail: String::new() },
                         0..=4 => Gap { nl: 0, blanks: t.pick_str(MID_BLANKS).to_string(), fixed, trail: String::new() },
@@ -167,7 +182,7 @@ pub fn gen_layout(p: &Prog, t: &mut Tape, style: Style) -> Vec<Gap> {
 /// breaks inside a blank-line group (2..4). Gaps touching comments/directives are kept.
 pub fn relayout(p: &Prog, gaps: &[Gap], t: &mut Tape) -> Vec<Gap> {
     let n = p.toks.len();
-    let style = *t.pick(&[Style::Wild, Style::Compact, Style::Pretty, Style::OneSpace, Style::Wild]);
+    let style = *t.pick(&[Style::Wild, Style::Compact, Style::Pretty, Style::OneSpace, Style::Wild, Style::Flush]);
     let fresh = gen_layout(p, t, style);
     let mut out = Vec::with_capacity(n + 1);
     for i in 0..=n {
@@ -274,11 +289,22 @@ pub fn insert_comments(p: &Prog, t: &mut Tape, policy: CommentPolicy, density: u
                         let c = t.pick_str(LINE_COMMENTS);
                         out.toks.push(comment_tok(c, false, tok.depth, tok.in_anon));
                         out.tags.insert("comment:trailing-line");
+                        if t.chance(1, 3) {
+                            // ... directly followed by a comment on the next line
+                            let c = t.pick_str(&["// second", "{ block }", "//x", "(* c *)", "// a b c"]);
+                            out.toks.push(comment_tok(c, true, tok.depth, tok.in_anon));
+                            out.tags.insert("comment:consecutive");
+                        }
                     }
                     1 => {
                         let c = t.pick_str(LINE_COMMENTS);
                         out.toks.push(comment_tok(c, true, tok.depth, tok.in_anon));
                         out.tags.insert("comment:own-line");
+                        if t.chance(1, 4) {
+                            let c = t.pick_str(&["// second", "{ block }", "//x", "(* c *)"]);
+                            out.toks.push(comment_tok(c, true, tok.depth, tok.in_anon));
+                            out.tags.insert("comment:consecutive");
+                        }
                     }
                     2 => {
                         let c = t.pick_str(BLOCK_COMMENTS);
